@@ -81,7 +81,9 @@ func c19Child(raw json.RawMessage) any {
 			}
 			// the ways a ping fails: an ordinary error, or - the usual case against a hung cluster - the ping's own
 			// deadline (client.Ping returns its context's error then)
-			switch (i + sc.ErrKind) % 3 {
+			switch (i + sc.ErrKind) % 4 {
+			case 3: // answered in time, but a service is unhealthy: client.Ping returns a partial result AND the error
+				return partialPingError{fmt.Errorf("injected ping failure #%d: management endpoint unhealthy", i)}
 			case 1:
 				return fmt.Errorf("injected ping failure #%d: %w", i, context.DeadlineExceeded)
 			case 2:
@@ -323,7 +325,7 @@ func TestC19_RoundsExhaustive(t *testing.T) {
 		if i%nsh != sh {
 			continue
 		}
-		scs = append(scs, c19Scenario{Rounds: []string{c19Issued(p)}, Stop: "after_rounds", StopTwice: i%2 == 0, StartTwice: i%3 == 0, ErrKind: i % 3})
+		scs = append(scs, c19Scenario{Rounds: []string{c19Issued(p)}, Stop: "after_rounds", StopTwice: i%2 == 0, StartTwice: i%3 == 0, ErrKind: i % 4})
 		// the long rounds again with slow pings (a failing ping usually fails by timing out): the round then lasts longer
 		// than five retry waits, and must still end only by its first success or its fifth failure
 		if strings.HasPrefix(p, "FFF") {
@@ -359,7 +361,7 @@ func TestC19_Sequences(t *testing.T) {
 			return // one generated batch per shard; the batch runs concurrently below
 		}
 		for i := 0; i < (n+nsh-1)/nsh; i++ {
-			sc := c19Scenario{StartTwice: rapid.Bool().Draw(rt, "start2"), StopTwice: rapid.Bool().Draw(rt, "stop2"), ErrKind: rapid.IntRange(0, 2).Draw(rt, "errkind")}
+			sc := c19Scenario{StartTwice: rapid.Bool().Draw(rt, "start2"), StopTwice: rapid.Bool().Draw(rt, "stop2"), ErrKind: rapid.IntRange(0, 3).Draw(rt, "errkind")}
 			sc.Stop = rapid.SampledFrom([]string{"none", "before_first_tick", "in_retry", "in_retry", "after_rounds", "after_rounds", "after_rounds_fast", "after_rounds_fast"}).Draw(rt, "stop")
 			switch sc.Stop {
 			case "before_first_tick":
